@@ -11,10 +11,11 @@ TB = ("Trusted: Lean 4.33 kernel; axioms at most propext, Classical.choice, Quot
       "modelled not verified: rmp encoders/marker table, bumpalo, Vec/ByteBuf growth, std float conversions, wasm-only entry points. ")
 
 CLAIMS = {
-    "C01": ("Theorems over a function-by-function transcription of lazy_value_ref.rs with an explicit invariant (Inv: a correct partial view of the value at an offset; Done: a complete one): from any correct partial view — whatever was visited before, in any order, through any handle — finishing a value produces the complete view and reports exactly the end offset the sequential decoder computes (finish_done, arrays and objects, unbounded nesting); "
+    "C01": ("Theorems over a function-by-function transcription of lazy_value_ref.rs with an explicit invariant (Inv: a correct partial view of the value at an offset; Done: a complete one): from any correct partial view — whatever was visited before, in any order, through any handle — (a) finishing a value produces the complete view and reports exactly the end offset the sequential decoder computes (finish_done, arrays and objects, unbounded nesting), "
+            "(b) get_at_index(i) on an array and get_at_index / key_at_index on an object succeed exactly where the sequential decoder reaches the header of element / pair i and the node stored at i is a correct view of the value at that offset (C01_array_element, C01_object_pair), (c) a property lookup returns the first pair whose key bytes equal the name, or null (C01_property_by_name against the specification specProp), always leaving a correct partial view behind; "
             "fresh nodes are correct views; revisits, already-found properties, kind mismatches and out-of-range indices are answered without mutation and with the documented codes; integers below 2^53 are reported exactly. "
             "Every read call (root, property by name / interned id, element / key by index, length, string bytes, api-level accessors) is compared with the real provider + api crates on generated raw MessagePack (every marker, non-minimal widths, duplicate keys, sizes crossing 15/16, 31/32, 255/256, 65535/65536, 2^14-1) over histories on all handles issued so far.",
-            TB + "The node-level refinement of indexed / by-name access and its lifting through handles (paths) is in progress (see DESIGN.md §4 C01); until it is closed those operations rest on the correspondence run. Bump-arena address stability is not modelled (handles are paths).",
+            TB + "Proved at node level (one container and its stored children); the lifting through handles (paths from a root: replacing a sub-node by one with the same status keeps the ancestors' invariant), the error direction (finish_fail) and the uniform-fuel lemma are not closed yet, so across several handles the statement rests on the correspondence run. Bump-arena address stability is not modelled (handles are paths).",
             "Lean 4 invariant + refinement lemmas over a hand-written model + differential correspondence over documents x histories", "§4 C01"),
     "C02": ("Kernel-checked theorems about the writer model (a rejected call — including a rejected string write with its copy — adds no byte; "
             "finalisation hands out bytes only in the completed state) tied to provider/src/write.rs + api glue by byte-for-byte differential "
